@@ -23,7 +23,7 @@ const pkgCT = "ctrlers/types"
 var payloadTypes = []string{"TrxPayloadProposal", "TrxPayloadVoting", "TrxPayloadSetDoc", "TrxPayloadUnstaking", "TrxPayloadWithdraw", "TrxPayloadContract", "TrxPayloadStaking", "TrxPayloadAssetTransfer"}
 
 func checkC03(w *World, r *Report) {
-	r.Explanation = "Structural clause of C03: (S-1) VerifyTrxRLP(ctx.Tx, ctx.ChainID) is called on the ctx.Exec branch of commonValidation0, its error is returned, no success return of commonValidation0/validateTrx/ExecuteSync bypasses it before runTrx, DeliverTx builds its context with exec=true and every TrxContext.ChainID comes from the node's chain id; (S-2) VerifyTrxRLP compares the full recovered address with tx.From and fails on inequality, the pre-image is prefix(chainId, len) ++ RLP(tx) of the same tx, Sig2Addr recovers from DefaultHash(pre-image) and the tx's own signature; (S-3) Trx.EncodeRLP places every Trx field in the encoded struct and every payload EncodeRLP reads every field of its struct; (S-4) every integer conversion on the way into the pre-image is width-preserving or widening, 256-bit values enter as Bytes(), payloads are RLP lists/items, never concatenations; (S-5) Trx.fromProto fills every Trx field from the like-named wire field, and fromProto, DecodeRLP and the payload codecs agree type by type."
+	r.Explanation = "Structural clause of C03: (S-1) VerifyTrxRLP(ctx.Tx, ctx.ChainID) is called on the ctx.Exec branch of commonValidation0, its error is returned, no success return of commonValidation0/validateTrx/ExecuteSync bypasses it before runTrx, DeliverTx builds its context with exec=true and every TrxContext.ChainID comes from the node's chain id; (S-2) VerifyTrxRLP compares the full recovered address with tx.From and fails on inequality, the pre-image is prefix(chainId, len) ++ RLP(tx) of the same tx, Sig2Addr recovers from DefaultHash(pre-image) and the tx's own signature; (S-3) Trx.EncodeRLP places every Trx field in the encoded struct and every payload EncodeRLP reads every field of its struct; (S-4) every integer conversion on the way into the pre-image is width-preserving or widening, 256-bit values enter as Bytes(), payloads are RLP lists/items, never concatenations; (S-5) Trx.fromProto fills every Trx field from the like-named wire field, and fromProto, DecodeRLP and the payload codecs agree type by type. Under the fact that validateTrx reported an error no path of ExecuteSync / executionRoutine carries an effect (S-1 no-effect-when-validation-fails): the sender of a transaction whose signature check failed is only a claim."
 	r.NotCovered = "strength of secp256k1/SHA-256 and go-ethereum's SigToPub/rlp internals; chain ids containing the prefix's delimiter; malleability of the tx hash (not part of the statement)."
 	s1(w, r)
 	s2(w, r)
